@@ -49,6 +49,15 @@ type Stream struct {
 	DestKinds []string `json:"dest_kinds,omitempty"`
 	Feeds     int      `json:"feeds,omitempty"`
 	Order     string   `json:"order,omitempty"`
+	// sized websocket feed ("wsbig"): message i has Sizes[i] bytes (self-describing: "WB", sequence number, length,
+	// a ramp derived from both) and is sent with WriteMessage (Frags[i] < 2) or as Frags[i] raw continuation
+	// fragments; BurstLen messages back to back, then GapUs; SlowUs: each lagging subscriber (channel of 2) is busy
+	// that long after every message it takes
+	Sizes    []int `json:"sizes,omitempty"`
+	Frags    []int `json:"frags,omitempty"`
+	BurstLen int   `json:"burst_len,omitempty"`
+	GapUs    int   `json:"gap_us,omitempty"`
+	SlowUs   []int `json:"slow_us,omitempty"`
 	// typed websocket messages ("wstext"): sent by a websocket client of /ws/<feed>, forwarded by a destination rule
 	Msgs   []TMsg    `json:"msgs,omitempty"`
 	CutMin int       `json:"cut_min,omitempty"`
@@ -143,6 +152,13 @@ func wsoutIndex(piece []byte) int {
 func (s Stream) total() int {
 	if s.Kind == "wsout" || s.Kind == "dest" || s.Kind == "agg" {
 		return s.Blk * s.Count
+	}
+	if s.Kind == "wsbig" {
+		t := 0
+		for _, n := range s.Sizes {
+			t += n
+		}
+		return t
 	}
 	if s.Kind == "wstext" {
 		t := 0
@@ -257,6 +273,97 @@ func (s Stream) coqDest() string {
 	return lib.App("CD", lib.N(s.Seed), lib.N(uint64(s.Blk)), lib.List(evs), lib.List(recv))
 }
 
+// bigMsg: message number sq of a sized websocket feed; Corr/C17.v [bmsg] computes the same
+func bigMsg(sq, n int) []byte {
+	x := (sq*31 + n) % 251
+	out := make([]byte, 0, n)
+	if n >= 10 {
+		out = append(out, 87, 66, byte(sq>>24), byte(sq>>16), byte(sq>>8), byte(sq), byte(n>>24), byte(n>>16), byte(n>>8), byte(n))
+	}
+	for len(out) < n {
+		out = append(out, byte(x))
+		if x == 250 {
+			x = 0
+		} else {
+			x++
+		}
+	}
+	return out
+}
+
+// bigSeq: the sequence number a received message carries (-1: none - shorter than the header, or scrambled)
+func bigSeq(f []byte) int {
+	if len(f) < 10 || f[0] != 87 || f[1] != 66 {
+		return -1
+	}
+	return int(f[2])<<24 | int(f[3])<<16 | int(f[4])<<8 | int(f[5])
+}
+
+// bigMatch tells which message sent each received one is: by the number it carries, or - for messages too short
+// to carry one, or damaged - the next message sent that it equals (else -1)
+func (s Stream) bigMatch(got [][]byte) []int {
+	out := make([]int, len(got))
+	next := 0
+	for j, f := range got {
+		k := bigSeq(f)
+		if k < 0 || k >= len(s.Sizes) {
+			k = -1
+			for i := next; i < len(s.Sizes); i++ {
+				if s.Sizes[i] == len(f) && s.Sizes[i] < 10 && string(bigMsg(i, s.Sizes[i])) == string(f) {
+					k = i
+					break
+				}
+			}
+		}
+		out[j] = k
+		if k >= next {
+			next = k + 1
+		}
+	}
+	return out
+}
+
+func (s Stream) coqBig() string {
+	o := s.Obs
+	nd := len(s.SlowUs)
+	idx := make([][]int, nd)
+	pos := make([]int, nd)
+	for d := 0; d < nd; d++ {
+		idx[d] = s.bigMatch(o.PerDest[d])
+	}
+	evs, tap := []string{}, []string{}
+	for k, n := range s.Sizes {
+		got := make([]bool, nd)
+		for d := 0; d < nd; d++ {
+			if pos[d] < len(idx[d]) && idx[d][pos[d]] == k {
+				got[d] = true
+			} else {
+				evs = append(evs, lib.App("Busy", lib.Nat(d)))
+			}
+		}
+		evs = append(evs, lib.App("WsMsg", lib.App("bmsg", lib.N(uint64(k)), lib.N(uint64(n)))))
+		for d := 0; d < nd; d++ {
+			if got[d] {
+				evs = append(evs, lib.App("Consume", lib.Nat(d)))
+				pos[d]++
+			}
+		}
+	}
+	for _, m := range o.Tap {
+		tap = append(tap, obsbLimit(m, 128))
+	}
+	caps, reads := []string{}, []string{}
+	for d := 0; d < nd; d++ {
+		caps = append(caps, lib.Nat(2))
+		one := []string{}
+		for _, m := range o.PerDest[d] {
+			one = append(one, obsbLimit(m, 128))
+		}
+		reads = append(reads, lib.List(one))
+	}
+	return lib.App("CS", lib.N(0), lib.List(caps), lib.List(evs), lib.List(tap), lib.List(reads))
+}
+
 // coqAgg / coqText: the websocket-path model (WsMsg events): every message published is a hand-off, a
 // destination that missed one was Busy, one that got it Consumes it at once
 func (s Stream) coqAgg() string {
@@ -319,6 +426,9 @@ func (s Stream) coq() string {
 	if s.Kind == "agg" {
 		return s.coqAgg()
 	}
+	if s.Kind == "wsbig" {
+		return s.coqBig()
+	}
 	if s.Kind == "wstext" {
 		return s.coqText()
 	}
@@ -371,6 +481,20 @@ func (s Stream) describe() string {
 		return fmt.Sprintf("wsout stream %q seed=%d: %d hub messages of %d bytes towards a websocket client of /ws/<feed> that reads %d messages then pauses %d us (SO_RCVBUF %d)",
 			s.Name, s.Seed, s.Count, s.Blk, s.ReadBurst, s.ReadPauseUs, s.Rcvbuf)
 	}
+	if s.Kind == "wsbig" {
+		nf := 0
+		for _, f := range s.Frags {
+			if f >= 2 {
+				nf++
+			}
+		}
+		sz := fmt.Sprint(s.Sizes)
+		if len(sz) > 90 {
+			sz = sz[:90] + "...]"
+		}
+		return fmt.Sprintf("wsbig stream %q: %d websocket feed messages of sizes %s (%d of them as raw continuation fragments), %d back to back then %d us; subscribers busy %v us per message",
+			s.Name, len(s.Sizes), sz, nf, s.BurstLen, s.GapUs, s.SlowUs)
+	}
 	if s.Kind == "agg" {
 		return fmt.Sprintf("agg stream %q seed=%d: destinations %v on stream/%s, stream rule over %d feed(s) added in order %q, then %d messages of %d bytes published on the feeds in turn",
 			s.Name, s.Seed, s.DestKinds, s.Name, s.Feeds, s.Order, s.Count, s.Blk)
@@ -409,6 +533,23 @@ func (s Stream) describe() string {
 
 func genStream(r *lib.Rng, kind string, i int) Stream {
 	s := Stream{Kind: kind, Name: fmt.Sprintf("%s%d", kind, i), Seed: uint64(r.Intn(1 << 20))}
+	if kind == "wsbig" {
+		n := r.Range(8, 24)
+		for i := 0; i < n; i++ {
+			sz := sizeThresholds[r.Intn(len(sizeThresholds)-2)] // the two megabyte sizes are in the fixed streams
+			if r.Chance(1, 4) {
+				sz = r.Range(0, 20000)
+			}
+			fr := 0
+			if r.Chance(1, 3) {
+				fr = r.Range(2, 5)
+			}
+			s.Sizes, s.Frags = append(s.Sizes, sz), append(s.Frags, fr)
+		}
+		s.BurstLen, s.GapUs = r.Range(1, 8), r.Range(0, 3000)
+		s.SlowUs = []int{0, r.Range(200, 3000)}
+		return s
+	}
 	if kind == "agg" {
 		s.Blk = []int{32, 64, 256}[r.Intn(3)]
 		s.Count = r.Range(40, 120)
@@ -468,6 +609,9 @@ func genStream(r *lib.Rng, kind string, i int) Stream {
 			if kind == "ts" && r.Chance(1, 12) {
 				n = r.Range(20000, 150000) // a key frame's worth: far above every internal buffer but the frame buffer
 			}
+			if kind == "ts" && r.Chance(1, 10) {
+				n = sizeThresholds[1+r.Intn(len(sizeThresholds)-3)] // a size at one of the limits (up to 64 KiB + 1)
+			}
 			if kind == "tcp" && r.Chance(1, 3) {
 				n = r.Range(1, 2*s.MaxFrame+10) // around the buffer size: some flushes must truncate
 			}
@@ -497,6 +641,10 @@ func genStream(r *lib.Rng, kind string, i int) Stream {
 	}
 	return s
 }
+
+// message sizes around the limits of the layers a message passes (websocket length encodings 125/126, the 4096
+// byte read and write buffers less frame headers, 64 KiB, 1 MiB)
+var sizeThresholds = []int{0, 1, 125, 126, 127, 4087, 4088, 4089, 4095, 4096, 4097, 8192, 65535, 65536, 65537, 1 << 20, 1<<20 + 1}
 
 // genTextMsgs: a UTF-8 text with multi-byte characters cut into websocket messages at arbitrary byte offsets
 // (so that some messages end or begin in the middle of a character), sent as text or as binary, plus stray bytes
@@ -539,6 +687,12 @@ func corpus(tier string) []Stream {
 			Consumers: []ConsSpec{{Cap: 2, Policy: "queue", Hold: 1}}},
 		// hub -> slow local websocket client: thousands of 4 kB messages, far more than it reads
 		{Kind: "wsout", Name: "wsout-slow-client", Seed: 69, Blk: 4096, Count: 3000, ReadBurst: 8, ReadPauseUs: 800, Rcvbuf: 16384},
+		// every threshold size through the websocket feed, whole and as continuation fragments
+		{Kind: "wsbig", Name: "wsbig-thresholds", Sizes: append([]int{}, sizeThresholds...), Frags: make([]int, len(sizeThresholds)), BurstLen: 1, GapUs: 2000, SlowUs: []int{0}},
+		{Kind: "wsbig", Name: "wsbig-fragments", Sizes: []int{0, 1, 10, 125, 126, 127, 300, 4088, 4089, 4097, 8192, 20000, 65536, 70000}, Frags: []int{2, 2, 3, 2, 5, 3, 4, 2, 3, 2, 5, 4, 3, 2}, BurstLen: 2, GapUs: 1000, SlowUs: []int{0, 500}},
+		// bursts of large frames towards subscribers that are briefly busy: nothing may arrive late
+		{Kind: "wsbig", Name: "wsbig-large-bursts-slow-subscribers", Sizes: []int{65536, 65537, 70000, 65536, 100000, 65536, 4096, 65536, 65535, 65536, 80000, 65536, 65536, 1000, 65536, 65536, 131072, 65536, 65536, 65536, 200, 65536, 65536, 65536},
+			Frags: make([]int, 24), BurstLen: 6, GapUs: 1500, SlowUs: []int{1000, 2500, 300}},
 		// several destinations on one aggregated stream, registered before the stream rule is added / re-submitted
 		{Kind: "agg", Name: "agg-dest-first", Seed: 73, Blk: 64, Count: 80, Feeds: 2, Order: "dest-first", DestKinds: []string{"hub", "hub", "rwc"}},
 		{Kind: "agg", Name: "agg-resubmit", Seed: 74, Blk: 64, Count: 80, Feeds: 1, Order: "resubmit", DestKinds: []string{"hub", "rwc"}},
